@@ -1,3 +1,3 @@
-(* _client.py :: async_ncrypt_unprotect_secret :: ('callarg', '_async_get_key', 0, 1) :  target_sd *)
+(* _client.py :: async_ncrypt_unprotect_secret :: shape kernel :  _async_get_key(... 1: target_sd  [= DPAPINGBlob.unpack(data).protection_descriptor.get_target_sd()] ...) *)
 Definition k_onl_aunprot_arg1 (target_sd : list Z) : list Z :=
   target_sd.
